@@ -45,20 +45,39 @@ class Cell(object):
     def token_list(self):
         return list(self.toks[:self.n()])
 
+    def is_missing(self):
+        return self.missing if isinstance(self.missing, bool) else bool(self.missing)
+
     def __bool__(self):
-        """truthiness of the underlying string (`not lstring`)."""
+        """truthiness of the underlying value (`not lstring`): a missing value is rendered as None
+        (falsy); a string is truthy iff it is non-empty."""
+        if self.is_missing():
+            return False
         if self.n() > 0:
             return True
         return bool(self.nonempty)
 
+    def is_empty_string(self):
+        return (not self.is_missing()) and self.n() == 0 and not bool(self.nonempty)
+
     def __len__(self):
-        raise Unsupported('len() of an abstract cell')
+        if self.is_empty_string():
+            return 0
+        raise Unsupported('len() of an abstract non-empty cell')
 
     def __eq__(self, o):
+        if isinstance(o, str) and not isinstance(o, Cell):
+            # comparison with a literal: only the empty string is decidable for an abstract cell
+            if o == '':
+                return self.is_empty_string()
+            if o.strip() == '':
+                raise Unsupported('comparison of an abstract cell with a whitespace literal')
+            return False
         return self is o
 
     def __ne__(self, o):
-        return self is not o
+        r = self.__eq__(o)
+        return not r
 
     def __hash__(self):
         return id(self)
